@@ -321,6 +321,44 @@ class SymSeries(_RowsMixin, SymBase):
         out = [And(Not(c.null), Or(*[c.num() == l.num() for l in lits])) for c in self.cells()]
         return self._with(col=Col("b", out))
 
+    def round(self, decimals=0, *a, **kw):
+        # numeric cells of the model are integer-valued: rounding to >= 0 decimals is the identity
+        if not isinstance(decimals, int):
+            raise StructuralError(f"Series.round: {type(decimals).__name__!r} object cannot be interpreted as an integer")
+        if decimals < 0:
+            raise Unsupported("round to negative decimals")
+        return self._with()
+
+    def replace(self, to_replace=None, value=None, **kw):
+        if kw.get("regex"):
+            raise Unsupported("replace(regex=)")
+        if isinstance(to_replace, dict):
+            if value is not None:
+                raise Unsupported("replace(dict, value)")
+            if any(isinstance(v, dict) for v in to_replace.values()):
+                raise StructuralError("to_replace and value cannot be dict-like for Series.replace")
+            pairs = list(to_replace.items())
+        elif isinstance(to_replace, (list, tuple)) or isinstance(value, (list, tuple, dict)) or isinstance(to_replace, SymBase) or isinstance(value, SymBase):
+            raise Unsupported("replace with list / symbolic arguments")
+        else:
+            pairs = [(to_replace, value)]
+        if self.col.kind == "b":
+            raise Unsupported("replace on a boolean column")
+        out = []
+        for c in self.cells():
+            v, n = c.num(), c.null
+            for old, new in pairs:
+                if is_null_literal(old) or is_null_literal(new) or isinstance(old, (str, bool)) or isinstance(new, (str, bool)):
+                    raise Unsupported("replace with null / non-numeric literals")
+                if float(new) != int(new) or float(old) != int(old):
+                    raise Unsupported("replace with fractional literals")
+            hit = F
+            res = v
+            for old, new in reversed(pairs):
+                res = If(And(Not(n), v == int(old)), z3.IntVal(int(new)), res)
+            out.append(Cell(res, n, self.col.kind))
+        return self._with(col=Col.from_cells(out, self.col.kind))
+
     def between(self, left, right, inclusive="both"):
         lo = self._bin(left, "ge" if inclusive in ("both", "left") else "gt")
         hi = self._bin(right, "le" if inclusive in ("both", "right") else "lt")
@@ -1271,6 +1309,21 @@ class SymFrame(_RowsMixin, SymBase):
 
     def clip(self, lower=None, upper=None, axis=None, **kw):
         return self._map_cols(lambda s: s.clip(lower, upper))
+
+    def round(self, decimals=0, *a, **kw):
+        if isinstance(decimals, dict):
+            if any((not isinstance(v, int)) or v < 0 for v in decimals.values()):
+                raise Unsupported("round to negative / non-integer decimals")
+            return self._with()  # labels without a column are ignored by pandas
+        return self._map_cols(lambda s: s.round(decimals))
+
+    def replace(self, to_replace=None, value=None, **kw):
+        if isinstance(to_replace, dict) and value is None and to_replace and all(isinstance(v, dict) for v in to_replace.values()):
+            # {column: {old: new}}: labels without a column are ignored
+            return self._with(cols=[(k, SymSeries(k, c, **self._row_attrs()).replace(to_replace[k]).col if k in to_replace else c) for k, c in self.cols])
+        if isinstance(to_replace, dict) and value is not None:
+            raise Unsupported("replace({column: old}, value)")
+        return self._map_cols(lambda s: s.replace(to_replace, value, **kw))
 
     def astype(self, dtype):
         if isinstance(dtype, dict):
